@@ -243,16 +243,36 @@ int write_python_table_native(std::ostream &out) {
 
         // Get the dependencies for this library.
         collect_base_libraries(thetype, library_name, deps);
+      }
+    }
+  }
 
-        if (interrogate_type_is_typedef(thetype)) {
-          TypeIndex wrapped = interrogate_type_wrapped_type(thetype);
-          if (interrogate_type_is_global(wrapped) &&
-              interrogate_type_has_library_name(wrapped)) {
-            string wrappedlib = interrogate_type_library_name(wrapped);
-            if (wrappedlib != library_name) {
-              deps.insert(std::move(wrappedlib));
-            }
-          }
+  // A library also adds its top-level typedefs to the module, whether or not
+  // they are marked global, as another name for the class they stand for.  If
+  // that class comes from a different library, that one has to go first.
+  for (int ti = 0; ti < interrogate_number_of_types(); ti++) {
+    TypeIndex thetype = interrogate_get_type(ti);
+    if (interrogate_type_is_typedef(thetype) &&
+        !interrogate_type_is_nested(thetype) &&
+        interrogate_type_has_module_name(thetype) &&
+        module_name == interrogate_type_module_name(thetype) &&
+        interrogate_type_has_library_name(thetype)) {
+      string library_name = interrogate_type_library_name(thetype);
+
+      // Follow a chain of typedefs to the end (but not around in circles).
+      TypeIndex wrapped = interrogate_type_wrapped_type(thetype);
+      for (int depth = 0;
+           depth < 100 && interrogate_type_is_typedef(wrapped);
+           ++depth) {
+        wrapped = interrogate_type_wrapped_type(wrapped);
+      }
+
+      if (interrogate_type_is_global(wrapped) &&
+          interrogate_type_has_library_name(wrapped)) {
+        string wrappedlib = interrogate_type_library_name(wrapped);
+        if (wrappedlib != library_name &&
+            dependencies.find(wrappedlib) != dependencies.end()) {
+          dependencies[library_name].insert(std::move(wrappedlib));
         }
       }
     }
